@@ -452,11 +452,20 @@ impl<'tcx> Cx<'tcx> {
                 }
             }
             mir::ConstValue::Scalar(mir::interpret::Scalar::Ptr(ptr, _)) => {
+                {
+                    let (prov0, _off0) = ptr.into_raw_parts();
+                    if let Some(rustc_middle::mir::interpret::GlobalAlloc::Static(sdid)) = tcx.try_get_global_alloc(prov0.alloc_id()) {
+                        o.push(("static_ref", J::Str(self.path(sdid))));
+                    }
+                }
                 // a reference to some constant memory: emit the pointee bytes when the pointee is sized
                 if let Some(inner) = t.builtin_deref(true) {
                     if let Ok(l) = tcx.layout_of(ty::TypingEnv::fully_monomorphized().as_query_input(inner)) {
                         let (prov, off) = ptr.into_raw_parts();
                         let aid = prov.alloc_id();
+                        if let Some(rustc_middle::mir::interpret::GlobalAlloc::Static(sdid)) = tcx.try_get_global_alloc(aid) {
+                            o.push(("static", J::Str(self.path(sdid))));
+                        }
                         self.enum_variant(mir::ConstValue::Indirect { alloc_id: aid, offset: off }, inner, o);
                         if let Some(rustc_middle::mir::interpret::GlobalAlloc::Memory(a)) = tcx.try_get_global_alloc(aid) {
                             let a = a.inner();
@@ -661,6 +670,7 @@ impl<'tcx> Cx<'tcx> {
                             self.place(body, pl, false),
                             self.rvalue(body, rv, typing_env, st.source_info.span),
                             self.line(st.source_info.span),
+                            J::Bool(st.source_info.span.from_expansion()),
                         ]));
                     }
                     StatementKind::SetDiscriminant { place, variant_index } => {
